@@ -249,6 +249,20 @@ func (c *Ctx) c17Resolve(cases *[]mcase) {
 			if req, ok := h.modelReq(styles); ok {
 				*cases = append(*cases, mcase{Req: req, Impl: win, Rel: "sheet.run(styles)", Desc: h})
 			}
+			// direct oracle: a cell that was never written or styled itself, in a row that existed with no row
+			// style when... simpler invariant: an untouched cell beyond the used rows shows its column's style
+			touchedRow := map[int]bool{}
+			for _, o := range h.Ops {
+				touchedRow[o.Row] = true
+			}
+			for col := h.C0; col < h.C0+h.W; col++ {
+				cn, _ := excelize.ColumnNumberToName(col)
+				cs, _ := f.GetColStyle(h.Sheet, cn)
+				far, _ := excelize.CoordinatesToCellName(col, h.R0+h.H+40)
+				if gs, _ := f.GetCellStyle(h.Sheet, far); gs != cs {
+					c.Fail("oracle", "C17_resolve", h, fmt.Sprintf("untouched cell %s reports style %d but its column's style is %d", far, gs, cs), "")
+				}
+			}
 			// invalid ids are rejected without any change
 			before := fullObservation(f, h.Sheet, h.W, h.H)
 			for _, bad := range []int{-1, len(styles) + 50, 1 << 30} {
